@@ -92,7 +92,9 @@ def _ppt(inputs, case, parg, party=None, pd="dual"):
     from toqito.state_opt import ppt_distinguishability
 
     party = case["party"] if party is None else party
+    before = [np.array(v, copy=True) for v in inputs]
     val, meas = ppt_distinguishability(vectors=inputs, subsystems=[party], dimensions=list(case["dims"]), probs=parg, primal_dual=pd)
+    req(all(a.shape == b.shape and np.array_equal(a, b) for a, b in zip(before, inputs)), "ppt_distinguishability modified the caller's states", "args-mutated")
     if val is None or not np.isfinite(val):
         raise Inconclusive("solver_no_value")
     return float(np.real(val)), meas
